@@ -177,6 +177,7 @@ def check(case, ctx):
     for m_, kw in METHODS:
         mn = mname(m_, kw)
         m = m_
+        kw = {k_: gens.numtype(v_, k_sp + len(mn)) for k_, v_ in kw.items()}      # (version 2 is version 2 as a Python int or as a NumPy integer)
         if m not in ROBUST and theta > np.pi - 1e-6:
             # closed-form formulas divide by / take the sign of an exact zero at the half-turn: outside the
             # property's domain for these three methods (values and exceptions are recorded, not judged)
